@@ -866,6 +866,9 @@ func (e *Exec) indexAddr(base Value, idx *Term, st string) Value {
 	e.curSite = st
 	switch b := base.(type) {
 	case *SliceV:
+		if b.symLen != nil {
+			unsup("element of a length-only slice accessed at %s", st)
+		}
 		e.obligation(Cmp(OpULt, idx, BV(64, uint64(b.len))), "runtime", "index out of range", st)
 		idx = e.subst(idx)
 		if idx.IsConst() {
@@ -981,6 +984,9 @@ func (e *Exec) sliceOp(x *ssa.Slice, base Value, lo, hi, mx getter, fr *frame, s
 	isStr := false
 	switch b := base.(type) {
 	case *SliceV:
+		if b.symLen != nil {
+			unsup("slicing of a length-only slice at %s", st)
+		}
 		obj, off, ln, cp = b.obj, b.off, b.len, b.cap
 	case *Ptr:
 		if b.symIdx != nil {
